@@ -57,7 +57,7 @@ theorem name_chars {n : String} (h : classify n = .identifier) :
 /-- the characters `startswith("not ")` looks for -/
 def notSp : List Char := ['n', 'o', 't', ' ']
 
-theorem notSp_eq : "not ".toList = notSp := by decide
+theorem notSp_eq : notSpC = notSp := by decide
 
 theorem notSp_prefix_false (w rest : List Char) (hw : ∀ c ∈ w, c ≠ ' ') (hne : w ≠ [])
     (h3 : w ≠ ['n', 'o', 't']) (hr : ∀ x xs, rest = x :: xs → x ≠ 'o' ∧ x ≠ 't') :
@@ -120,8 +120,8 @@ end ASV.Reprint
 namespace ASV.Reprint
 open ASV ASV.Rules ASV.Parser ASV.Grammar
 
-theorem lit_notsp : "not ".toList = notSp := by decide
-theorem lit_notpar : "not (".toList = notSp ++ ['('] := by decide
+theorem lit_notsp : notSpC = notSp := by decide
+theorem lit_notpar : notParC = notSp ++ ['('] := by decide
 theorem lit_minscore : "minscore(".toList = 'm' :: "inscore(".toList := by decide
 theorem lit_minimum : "minimum(".toList = 'm' :: "inimum(".toList := by decide
 theorem lit_cds : "cds(".toList = 'c' :: "ds(".toList := by decide
@@ -206,7 +206,7 @@ theorem first_chars : ∀ c : Cond, NamesOk c → Cond.isConj c = false →
           exact ⟨by simp [notSp, List.isPrefixOf], by simp⟩
       · have hc' : Cond.isConj x = false := by simpa using hc
         obtain ⟨i1, i2⟩ := first_chars x hx hc'
-        have hpj : printJoin " or ".toList [x] = printChars x := by simp [printJoin]
+        have hpj : printJoin orSep [x] = printChars x := by simp [printJoin]
         have hjt : joinTexts "or" [x] = printTexts x := by simp [joinTexts]
         cases neg with
         | false =>
